@@ -75,6 +75,13 @@ def gen_case(rng):
             exps.append((where, key, "attrs", attrs))
         (feed_elems if where == "feed" else entry_elems).append(el)
         used.append((prefix, docuri, expect_prefix, uri))
+    # simple date elements (stage 1.5 of the model: recognised from the handlers' source); no expectation attached here -- they exercise the correspondence
+    for where_list in (feed_elems, entry_elems):
+        if rng.random() < 0.5:
+            name = rng.choice(["pubDate", "lastBuildDate", "expirationDate"] if fmt == "rss" else ["updated", "published", "issued", "modified", "created"])
+            text = rng.choice(["Thu, 01 Jan 2004 19:48:21 GMT", "2004-02-28T18:14:55-08:00", "2003-12-31", "not a date", "", " 2005-06-07T08:09:10Z \n", "20031231"])
+            attr = rng.choice(["", "", ' type="x"'])
+            where_list.insert(rng.randrange(len(where_list) + 1), "<%s%s>%s</%s>" % (name, attr, text, name))
     xmlns = "".join(' xmlns:%s="%s"' % kv for kv in decls.items())
     if fmt == "rss":
         doc = '<rss version="2.0"%s><channel>%s<item>%s</item></channel></rss>' % (xmlns, "".join(feed_elems), "".join(entry_elems))
